@@ -71,13 +71,19 @@ CHECKS = {
         'or for BIP143 the spent amount changes the preimage and the library digest, or a collision of H is exhibited) and tamper_detected(_tx): with the premise that '
         'old signatures are valid for no other digest, verification of the tampered transaction is False unless m other signatures are present. Tie: real transactions of '
         'every standard input kind are built, signed in subsets/orders/several calls, tampered field by field, round-tripped through raw()/parse and verified; verdicts, '
-        'Input.valid flags and sign() status are compared with the extracted model; the property-level oracle recomputes signature validity with fastecdsa.',
+        'Input.valid flags and sign() status are compared with the extracted model; the property-level oracle recomputes signature validity with fastecdsa.'
+        ' Hash type: Input.hash_type is modelled (lib_parsed_ht: first signature byte after parse, every kind after fix C02-5; lib_ctor_ht on the constructor path): '
+        'verify_uses_signature_hash_type, signature_for_other_hash_type_fails, hash_type_changes_digest (BIP143, all hash types, or a collision of H). Tie: the hash-type byte of every '
+        'serialized signature of every input kind is changed in the bytes of raw() (own reader/writer) and on the constructor path; third-party signatures for 02/03/81/82/83/04 made by '
+        'the harness over the independent consensus digest; the oracle is ECDSA over the consensus digest for the byte each signature carries, computed without the library.',
    design_ref='DESIGN.md section 6 C02, section 9',
    note='Closed under the global context. ECDSA unforgeability is not claimed: it is the explicit premise bound_to of stale_signatures_fail / tamper_detected (C13 covers '
         'the signature layer). sign_history_* are proved under exactly the guards of the two known completeness findings, each with _refuted Examples: resign_free_all '
         '(resign_keeps_stale; needed even without a digest change) and, only when a verification happens between sign() calls, dup_point_free (dup_point_keys). Histories '
         'use one digest per input and start from an unsigned input or any canonical state; hand-edited signature lists are covered by verify_sound / verify_exact and the '
-        'correspondence only. tamper_* are for hash types treated like SIGHASH_ALL on the wf_stx domain of C01.',
+        'correspondence only. tamper_* are for hash types treated like SIGHASH_ALL on the wf_stx domain of C01. witness_signature_hash_type_ignored repaired (C02-5). Known soundness finding '
+        'input_level_hash_type (one digest per input although signatures of one input may carry different hash-type bytes; input_level_hash_type_refuted; proposed repair fixes/C02-6). Legacy '
+        'non-ALL third-party signatures are excused through the C01 class legacy_non_all_hashtype only. Bare multisig is not serializable with signatures through the API.',
    technique='Coq proof (induction over key/signature lists and over call histories, arbitrary signature relation) + scenario differential correspondence'),
  'C07': dict(
    text='Pure Gallina model of Wallet.select_inputs, transaction_create (fee given/named/automatic, dust folding, change splitting with the random draws as '
